@@ -2,6 +2,7 @@ package props
 
 import (
 	"fmt"
+	"os"
 	"strings"
 	"sync"
 	"time"
@@ -341,14 +342,179 @@ func c34TwoHellos() *explore.Scenario {
 	}
 }
 
+// c34SealedInner — correctly sealed ECH payloads around hostile inner hellos. A byte edit of a
+// recorded ECH hello breaks the HPKE tag and the server falls back to the outer hello; to reach
+// the code that decodes an accepted inner hello the harness seals its own: the inner ClientHello
+// is assembled here (ech_outer_extensions references, padding, inner marker drawn from small
+// menus), encoded as EncodedClientHelloInner, and encrypted for the server's key with the outer
+// hello as associated data, exactly as a client would.
+func c34SealedInner() *explore.Scenario {
+	refMenu := []struct {
+		name string
+		refs []uint16
+		raw  []byte // if set, the literal ech_outer_extensions body
+	}{
+		{"none", nil, nil},
+		{"valid[10,13]", []uint16{10, 13}, nil},
+		{"absent-type", []uint16{10, 0x1234}, nil},
+		{"out-of-order[13,10]", []uint16{13, 10}, nil},
+		{"duplicate[10,10]", []uint16{10, 10}, nil},
+		{"the-ech-extension-itself", []uint16{0xfe0d}, nil},
+		{"every-outer-type", []uint16{0xffff}, nil}, // expanded below
+		{"empty-list", nil, []byte{0}},
+		{"odd-length-list", nil, []byte{3, 0, 10, 0}},
+		{"length-beyond-body", nil, []byte{200, 0, 10}},
+	}
+	return &explore.Scenario{
+		Name:     "sealed-ech-with-hostile-inner-hello",
+		Watchdog: 60 * time.Second, HangSig: "C34|hang",
+		Run: func(x *explore.X) (r explore.Result) {
+			var base *wire.Hello
+			for _, h := range c34Corpus() {
+				if h.name == "custom:tls13-minimal" {
+					base, _ = wire.ParseClientHello(h.msg)
+				}
+			}
+			if base == nil {
+				r.Violate("INFRA|c34-base-hello", "no base hello")
+				return
+			}
+			rm := refMenu[x.Choose("outer-refs", len(refMenu))]
+			pad := x.Choose("padding", 3)      // 0 none, 1 31 zero bytes, 2 a non-zero padding byte
+			marker := x.Choose("inner-ech", 3) // 0 inner marker, 1 absent, 2 an outer-type extension inside the inner hello
+			trunc := x.Choose("truncate", 3)   // 0 intact, 1 encoded inner cut in the middle, 2 cut to 10 bytes
+			twice := x.Choose("refs-twice", 2) == 1
+			what := fmt.Sprintf("outer-refs=%s padding=%d inner-ech=%d truncate=%d refs-twice=%v", rm.name, pad, marker, trunc, twice)
+			sealer, err := tls.VerifNewECHSealer(c34ECH.ConfigList)
+			if err != nil {
+				r.Violate("INFRA|c34-sealer", "%v", err)
+				return
+			}
+			sni := func(name string) []byte {
+				b := []byte{0, byte(len(name) + 3), 0, 0, byte(len(name))}
+				return append(b, name...)
+			}
+			// outer hello: the base with the public name and an outer ECH extension
+			outer := *base
+			outer.Exts = nil
+			for _, e := range base.Exts {
+				if e.Type == 0 {
+					e = wire.Ext{Type: 0, Body: sni("public.example")}
+				}
+				outer.Exts = append(outer.Exts, e)
+			}
+			refs := rm.refs
+			if len(refs) == 1 && refs[0] == 0xffff {
+				refs = nil
+				for _, e := range outer.Exts {
+					refs = append(refs, e.Type)
+				}
+			}
+			// inner hello
+			inner := *base
+			inner.SessionID = nil
+			inner.Exts = nil
+			refBody := rm.raw
+			if refBody == nil && refs != nil {
+				refBody = []byte{byte(2 * len(refs))}
+				for _, t := range refs {
+					refBody = append(refBody, byte(t>>8), byte(t))
+				}
+			}
+			inserted := false
+			isRef := func(t uint16) bool {
+				for _, x := range refs {
+					if x == t {
+						return true
+					}
+				}
+				return false
+			}
+			for _, e := range base.Exts {
+				if e.Type == 0 {
+					e = wire.Ext{Type: 0, Body: sni("secret.example")}
+				}
+				if e.Type == 43 {
+					e = wire.Ext{Type: 43, Body: []byte{2, 3, 4}} // an inner hello offers TLS 1.3 only
+				}
+				if refBody != nil && (isRef(e.Type) || (rm.raw != nil && e.Type == 10)) {
+					if !inserted {
+						inserted = true
+						inner.Exts = append(inner.Exts, wire.Ext{Type: 0xfd00, Body: refBody})
+					}
+					continue
+				}
+				inner.Exts = append(inner.Exts, e)
+			}
+			if refBody != nil && !inserted {
+				inner.Exts = append(inner.Exts, wire.Ext{Type: 0xfd00, Body: refBody})
+			}
+			if twice && refBody != nil {
+				inner.Exts = append(inner.Exts, wire.Ext{Type: 0xfd00, Body: refBody})
+			}
+			switch marker {
+			case 0:
+				inner.Exts = append(inner.Exts, wire.Ext{Type: 0xfe0d, Body: []byte{1}})
+			case 2:
+				inner.Exts = append(inner.Exts, wire.Ext{Type: 0xfe0d, Body: append([]byte{0, 0, 1, 0, 1, 7, 0, 0}, 0, 0)})
+			}
+			encoded := rebuildHello(&inner, nil)[4:]
+			switch pad {
+			case 1:
+				encoded = append(encoded, make([]byte, 31)...)
+			case 2:
+				encoded = append(encoded, 0, 0, 7, 0)
+			}
+			switch trunc {
+			case 1:
+				encoded = encoded[:len(encoded)/2]
+			case 2:
+				encoded = encoded[:10]
+			}
+			echBody := func(payload []byte) []byte {
+				b := []byte{0, byte(sealer.KDF >> 8), byte(sealer.KDF), byte(sealer.AEAD >> 8), byte(sealer.AEAD), sealer.ConfigID, byte(len(sealer.Enc) >> 8), byte(len(sealer.Enc))}
+				b = append(b, sealer.Enc...)
+				b = append(b, byte(len(payload)>>8), byte(len(payload)))
+				return append(b, payload...)
+			}
+			withECH := func(payload []byte) []byte {
+				o := outer
+				o.Exts = append(append([]wire.Ext(nil), outer.Exts...), wire.Ext{Type: 0xfe0d, Body: echBody(payload)})
+				return rebuildHello(&o, nil)
+			}
+			aad := withECH(make([]byte, len(encoded)+16))[4:]
+			ct, err := sealer.Seal(aad, encoded)
+			if err != nil {
+				r.Violate("INFRA|c34-seal", "%v", err)
+				return
+			}
+			serr, pm := serveBytes(recordOf(withECH(ct)), true)
+			r.Nontrivial = true
+			if pm != "" {
+				r.Violate(fmt.Sprintf("C34|server-panic|sealed-inner|refs=%s|%s", rm.name, errClass(fmt.Errorf("%s", firstLineOf(pm)))), "%s: the server panicked on a correctly sealed ECH payload: %s", what, truncStr(pm, 400))
+			}
+			r.Count("server_returned", 1)
+			if serr != nil && strings.Contains(serr.Error(), "stalled") {
+				r.Count("sealed_inner_accepted", 1) // the server went on with the inner hello and waits for the client
+			}
+			r.Obs = "serr=" + truncStr(errClass(serr), 70)
+			r.Class = what + "|" + r.Obs
+			if os.Getenv("C34_DEBUG") != "" && trunc == 0 && !twice && marker == 0 {
+				fmt.Fprintf(os.Stderr, "C34DEBUG %s => %v\n", what, serr)
+			}
+			return
+		},
+	}
+}
+
 func c34Scenarios(thorough bool) []*explore.Scenario {
-	return []*explore.Scenario{c34Hellos(thorough), c34Flights(), c34TwoHellos()}
+	return []*explore.Scenario{c34Hellos(thorough), c34Flights(), c34TwoHellos(), c34SealedInner()}
 }
 
 func init() {
 	register(&Prop{ID: "C34", Level: "exploration", Variant: "A", Scenarios: c34Scenarios,
 		Run: func(c *explore.Check, thorough bool) {
-			c.Rule = "ClientHello of every discovered ID, custom specs, real-ECH outer hellos (server holding the matching key) and a PSK hello x server {with, without ECH keys} x mutation {every byte position (all for <= 300 B, else head/stride/tail) x values {00, ff, ^01 (+7f, 80)}, truncation to every such length, every extension body truncated to every length with all outer prefixes fixed, every key share resized to {0,1,31,32,33,64,65,100,600,1183,1184,1185,1215,1217} bytes with consistent prefixes}; complete flights of 6 clients x {1.3,1.2} x client auth in which the client inserts an extra handshake message of type {8,25,99,4,24,1,11,20} with 0/2/300-byte body before/after each of its own messages (client-side verif hook); two-hello inputs: a first hello without a usable share (forcing a HelloRetryRequest) and a second hello, each carrying one of 5 ECH extension shapes {absent, inner marker, outer all-zero, outer GREASE-like, real outer} x 4 second-hello variations x server with/without ECH keys. Oracle: server Handshake/Read return without panic (watchdog 60 s). distinct = case"
+			c.Rule = "ClientHello of every discovered ID, custom specs, real-ECH outer hellos (server holding the matching key) and a PSK hello x server {with, without ECH keys} x mutation {every byte position (all for <= 300 B, else head/stride/tail) x values {00, ff, ^01 (+7f, 80)}, truncation to every such length, every extension body truncated to every length with all outer prefixes fixed, every key share resized to {0,1,31,32,33,64,65,100,600,1183,1184,1185,1215,1217} bytes with consistent prefixes}; complete flights of 6 clients x {1.3,1.2} x client auth in which the client inserts an extra handshake message of type {8,25,99,4,24,1,11,20} with 0/2/300-byte body before/after each of its own messages (client-side verif hook); two-hello inputs: a first hello without a usable share (forcing a HelloRetryRequest) and a second hello, each carrying one of 5 ECH extension shapes {absent, inner marker, outer all-zero, outer GREASE-like, real outer} x 4 second-hello variations x server with/without ECH keys; correctly HPKE-sealed ECH payloads around inner hellos assembled by the harness: 10 ech_outer_extensions shapes x 3 paddings x 3 inner ECH markers x 3 truncations x {once, twice}. Oracle: server Handshake/Read return without panic (watchdog 60 s). distinct = case"
 			c.Assumptions = []string{"small-scope: one mutation per execution from a fixed menu", "QUIC server input is not covered"}
 			runAll(c, c34Scenarios(thorough), 0)
 			c.Gate(c.Total.Counters["server_returned"] > 50000, "non-vacuity: %d server runs", c.Total.Counters["server_returned"])
